@@ -27,6 +27,13 @@ func init() {
 					pairs(e, "c01chain/"+con+":"+o, "chain/"+con+"->"+o, lv, lv)
 				}
 			}
+			// ... and a was built by hunks whose paths lead through array positions and keyed members
+			lv4 := c04LiveDocs()
+			for _, con := range []string{"leaf:none", "leaf:SET", "leaf:MULTISET", "leaf:SETKEYS:id"} {
+				for _, o := range []string{"none", "SET", "MULTISET"} {
+					pairs(e, "c01chain/"+con+":"+o, "chain/"+con+"->"+o, lv4, lv4)
+				}
+			}
 			near := NearNumberArrays()
 			pairs(e, "c01:PRECISION:0.1", "near/PRECISION:0.1", near, near)
 			enumPairs("c01", allOptSets)(tier, e)
